@@ -555,6 +555,21 @@ def main(chk):
                              "want": "[1, 2, 2, 3, 4, false, 2]"}))
             break
 
+    # literals in script FILES (read by runscript.ReadFile / the test driver, not handed over as text): the bytes of the file
+    # are the source — a CR LF pair inside a raw str is part of the str, a quoted str with escapes denotes the same value
+    fdir = os.path.join(BUILD, "c17_files_%d" % os.getpid())
+    body = 's := `ab\r\ncd`\r\nassertEq(s.len, 6)\r\nassertEq(s == "ab\\r\\ncd", true)\r\nassertEq(s@ord, [97, 98, 13, 10, 99, 100])\r\n' \
+           't := `x\ny`\r\nassertEq(t.len, 3)\r\nu := "tab\\there"\r\nassertEq(u.len, 8)\r\nassertEq(`\t`.len, 1)\r\n"file done".p\r\n'
+    fouts = harness("runtest", [{"files": [["a_test.pangaea", body]], "dir": fdir + "a"},
+                                {"files": [["main.pangaea", body]], "dir": fdir + "b", "mode": "file"}])
+    for how, o in zip(("pangaea test <dir>", "pangaea <file>"), fouts):
+        hist["script-file"] = hist.get("script-file", 0) + 1
+        chk.count(("script-file", how), True)
+        if not (o["code"] == 0 and "file done" in o["out"]):
+            failing.append(("C17:script-file", "a script file with CR LF line ends and a raw str spanning lines does not keep the bytes of its literals when run "
+                            "with `%s`: exit %s, stderr %r" % (how, o["code"], o["err"][:300]),
+                            {"harness": "runtest", "how": how, "file_bytes": body, "got": o, "want": "exit 0, prints `file done`"}))
+
     # 2. correspondence with the Coq models (vm_compute inside Coq)
     lrows = ["(%d, %s, %s)" % (i, coq_spelling(src), go2coq(o["r"])) for i, ((_, src, _, _), o) in enumerate(zip(lits, louts))]
     nrows = ["(%d, %s, %s, %s, %s, %s)" % (i, coq_spelling(n), cb(o["var"]), cb(o["prop"]), cb(o["sym"]), cb(o["tok"]))
